@@ -293,6 +293,8 @@ def generate(seed, tier):
             s = random_schedule(rs, data, fam, backend, block)
             dels.append({'form': fam, 'via': 'sim', 'sizes': s['sizes'], 'then': s['then'], 'block': block, 'kind': s['kind']})
     case.update(text=text, deliveries=dels)
+    if len(text) < 20000 and r.random() < 0.3:
+        case['interleave'] = True
     return case
 
 
@@ -350,8 +352,8 @@ LAST_ERROR_TEXT = [None]
 LAST_ERROR_SNIPPET = [None]
 
 
-def deliver(yaml, data, d, api, backend, shift):
-    """Run one delivery.  Returns (items, err, readlog, stream)."""
+def make_source(yaml, data, d, backend):
+    """(source object handed to the library, loader class, read log, SimReader or None)."""
     L = loader_class(yaml, backend, d.get('block') if d.get('via') == 'sim' else None)
     log = []
     stream = None
@@ -373,31 +375,81 @@ def deliver(yaml, data, d, api, backend, shift):
     else:
         stream = SimReader(data, d.get('sizes') or (), d.get('then'), log=log)
         src = stream
+    return src, L, log, stream
+
+
+def classify(yaml, exc, shift):
+    """(canonical error, str(exc) or None, snippet or None) of an exception that ended a delivery."""
+    text = snippet = None
+    if isinstance(exc, yaml.YAMLError):
+        err = observe.error(exc, shift)
+        try:
+            text = str(exc)
+        except Exception as exc2:
+            text = 'str() failed: %r' % (exc2,)
+        pm = getattr(exc, 'problem_mark', None)
+        try:
+            snippet = pm.get_snippet() if pm is not None else None
+        except Exception as exc2:
+            snippet = 'get_snippet() failed: %r' % (exc2,)
+    elif isinstance(exc, ReadBudgetExceeded):
+        err = {'class': 'ReadBudgetExceeded', 'args': [str(exc)]}
+    elif isinstance(exc, RecursionError):
+        err = {'class': 'RecursionError'}
+    else:
+        err = observe.error(exc, shift)
+        err['non_yaml'] = True
+    return err, text, snippet
+
+
+def deliver(yaml, data, d, api, backend, shift):
+    """Run one delivery.  Returns (items, err, readlog, stream)."""
+    src, L, log, stream = make_source(yaml, data, d, backend)
     items, err = [], None
     LAST_ERROR_TEXT[0] = None
     LAST_ERROR_SNIPPET[0] = None
     try:
         for it in getattr(yaml, api)(src, Loader=L):
             items.append(canon_item(api, it, shift))
-    except yaml.YAMLError as exc:
-        err = observe.error(exc, shift)
-        try:
-            LAST_ERROR_TEXT[0] = str(exc)
-        except Exception as exc2:
-            LAST_ERROR_TEXT[0] = 'str() failed: %r' % (exc2,)
-        pm = getattr(exc, 'problem_mark', None)
-        try:
-            LAST_ERROR_SNIPPET[0] = pm.get_snippet() if pm is not None else None
-        except Exception as exc2:
-            LAST_ERROR_SNIPPET[0] = 'get_snippet() failed: %r' % (exc2,)
-    except ReadBudgetExceeded as exc:
-        err = {'class': 'ReadBudgetExceeded', 'args': [str(exc)]}
-    except RecursionError:
-        err = {'class': 'RecursionError'}
+    except kernel.Hang:
+        raise
     except Exception as exc:
-        err = observe.error(exc, shift)
-        err['non_yaml'] = True
+        err, LAST_ERROR_TEXT[0], LAST_ERROR_SNIPPET[0] = classify(yaml, exc, shift)
     return items, err, [(e[3], e[4]) for e in log], stream
+
+
+def deliver_interleaved(yaml, text, dels, api, backend, salt):
+    """All deliveries of a case alive at the same time: one generator per delivery, advanced a few items at a time in an
+    order decided by a seeded scheduler (two files compared side by side; a reader per connection).  What each delivery
+    observes must not depend on the other readers that exist.  Returns one (items, err, readlog, error text, snippet) per
+    delivery, in the order of `dels`."""
+    import random
+    rr = random.Random(kernel.H(salt, 'interleave'))
+    tasks = []
+    for d in dels:
+        family = d['form']
+        data = encode(text, family)
+        shift = 1 if (backend == 'py' and family in ('utf8bom', 'utf16le', 'utf16be')) else 0
+        src, L, log, _ = make_source(yaml, data, d, backend)
+        tasks.append({'gen': getattr(yaml, api)(src, Loader=L), 'shift': shift, 'log': log, 'items': [], 'err': None, 'text': None, 'snip': None, 'done': False})
+    live = list(range(len(tasks)))
+    while live:
+        i = live[rr.randrange(len(live))]
+        t = tasks[i]
+        for _ in range(rr.choice([1, 1, 2, 3, 7])):
+            try:
+                t['items'].append(canon_item(api, next(t['gen']), t['shift']))
+            except StopIteration:
+                t['done'] = True
+            except kernel.Hang:
+                raise
+            except Exception as exc:
+                t['err'], t['text'], t['snip'] = classify(yaml, exc, t['shift'])
+                t['done'] = True
+            if t['done']:
+                live.remove(i)
+                break
+    return [(t['items'], t['err'], [(e[3], e[4]) for e in t['log']], t['text'], t['snip']) for t in tasks]
 
 
 def reader_ops(yaml, src, block, ops, shift):
@@ -580,11 +632,18 @@ def execute(case):
         fam_ref = {}
         msg_ref = {}
         snip_ref = {}
+        together = None
+        if case.get('interleave') and len(case['deliveries']) > 1:
+            together = deliver_interleaved(yaml, text, case['deliveries'], api, backend, tdig)
+            out['probes']['cases_with_all_deliveries_alive_at_once'] = 1
         for i, d in enumerate(case['deliveries']):
             family = d['form']
             data = encode(text, family)
             shift = 1 if (backend == 'py' and family in ('utf8bom', 'utf16le', 'utf16be')) else 0
-            items, err, readlog, _ = deliver(yaml, data, d, api, backend, shift)
+            if together is not None:
+                items, err, readlog, LAST_ERROR_TEXT[0], LAST_ERROR_SNIPPET[0] = together[i]
+            else:
+                items, err, readlog, _ = deliver(yaml, data, d, api, backend, shift)
             out['evals'] += 1
             if err is not None and d['via'] == 'memory' and family in ('text', 'utf8') and isinstance(err.get('problem_mark'), list):
                 # the quoted source line of an in-memory document: the same for the str and for its UTF-8 bytes
@@ -718,6 +777,8 @@ def shrink(case):
     if case.get('defect') and case['defect']['at'] > 0:
         for a in shr.int_candidates(case['defect']['at']):
             yield dict(case, defect=dict(case['defect'], at=a))
+    if case.get('interleave'):
+        yield {k: v for k, v in case.items() if k != 'interleave'}
     for i, d in enumerate(case.get('deliveries', [])):
         if d.get('via') == 'sim' and d.get('sizes'):
             for s in shr.sizes_candidates(d['sizes']):
